@@ -63,6 +63,7 @@ TABLE = {
         edits=[], appended=["timeout=60"], added=C(timeout=1, **{"60": 1}), removed=C(),
     ),
     "harden-pyyaml": dict(
+        needs='import yaml',
         mod="yaml", fn="load", pool=["d", "d, {M}.Loader", "d, Loader={M}.Loader", "h(d), Loader={M}.UnsafeLoader"],
         edits=[("{M}.Loader", "{M}.SafeLoader"), ("Loader={M}.Loader", "Loader={M}.SafeLoader"), ("Loader={M}.UnsafeLoader", "Loader={M}.SafeLoader")],
         appended=["Loader={M}.SafeLoader"], added=C(Loader=1, yaml=2, al=1, SafeLoader=1, **{"import": 1}), removed=C(Loader=1, UnsafeLoader=1),
@@ -76,26 +77,31 @@ TABLE = {
         edits=[("resolve_entities=True", "resolve_entities=False")], appended=["resolve_entities=False"], added=C(resolve_entities=1, **{"False": 1}), removed=C(**{"True": 1}),
     ),
     "safe-lxml-parsing": dict(
+        needs='import lxml.etree',
         mod="lxml.etree", fn="parse", pool=["p", "h(p)", "p, base_url=b"],
         edits=[], appended=["parser=lxml.etree.XMLParser(resolve_entities=False)"],
         added=C(parser=1, lxml=2, etree=2, XMLParser=1, resolve_entities=1, **{"False": 1, "import": 1}), removed=C(),
     ),
     "secure-random": dict(
+        needs='import secrets',
         mod="random", fn="randint", pool=["1, 2", "a, b=2", "*a"],
         edits=[], appended=[], callee=lambda c: "secrets.SystemRandom().randint",
         added=C(secrets=2, SystemRandom=1, randint=1, **{"import": 1}), removed=C(random=2, randint=2, al=2, G=2, **{"import": 1, "from": 1, "as": 1}),
     ),
     "sandbox-process-creation": dict(
+        needs='from security import safe_command',
         mod="subprocess", fn="run", pool=["cmd", "cmd, check=True", "[c, h(d)], **k", "*a"],
         edits=[], appended=[], wrap=lambda c: ("safe_command.run", c),
         added=C(security=1, safe_command=2, run=1, **{"from": 1, "import": 1}), removed=C(),
     ),
     "url-sandbox": dict(
+        needs='from security import safe_requests',
         mod="requests", fn="get", pool=["u", "u, timeout=3", "h(u), **k"],
         edits=[], appended=[], callee=lambda c: "safe_requests.get",
         added=C(security=1, safe_requests=2, get=1, **{"from": 1, "import": 1}), removed=C(requests=2, al=2, G=2, get=1, **{"import": 1, "from": 1, "as": 1}),
     ),
     "upgrade-sslcontext-tls": dict(
+        needs='import ssl',
         mod="ssl", fn="SSLContext", pool=["{M}.PROTOCOL_SSLv2", "protocol={M}.PROTOCOL_SSLv3", "{M}.PROTOCOL_TLSv1"],
         edits=[("{M}.PROTOCOL_SSLv2", "{M}.PROTOCOL_TLS_CLIENT"), ("protocol={M}.PROTOCOL_SSLv3", "protocol={M}.PROTOCOL_TLS_CLIENT"), ("{M}.PROTOCOL_TLSv1", "{M}.PROTOCOL_TLS_CLIENT")],
         appended=[], added=C(PROTOCOL_TLS_CLIENT=1, ssl=2, **{"import": 1}), removed=C(PROTOCOL_SSLv2=1, PROTOCOL_SSLv3=1, PROTOCOL_TLSv1=1, al=1),
@@ -129,10 +135,12 @@ TABLE = {
     ),
     #  ---- detector-less hardening codemods (results=None: the transformer finds its own sites)
     "fix-math-isclose": dict(
+        needs='import math',
         detectorless=True, mod="math", fn="isclose", pool=["a, 0", "0, h(b)", "a, 0, rel_tol=1e-3", "0.0, b, rel_tol=t, **k"],
         edits=[], appended=["abs_tol=1e-09"], added=C(abs_tol=1, **{"1e-09": 1}), removed=C(),
     ),
     "timezone-aware-datetime": dict(
+        needs='import datetime',
         detectorless=True, mod=None, fn=None, pool=[""],
         forms=[("import datetime", "datetime.datetime.utcnow"), ("import datetime as al", "al.datetime.utcnow"), ("from datetime import datetime", "datetime.utcnow"), ("from datetime import datetime as G", "G.utcnow")],
         edits=[], appended=["tz=datetime.timezone.utc", "tz=al.timezone.utc", "tz=timezone.utc"],
@@ -140,6 +148,7 @@ TABLE = {
         added=C(now=1, tz=1, datetime=1, al=1, timezone=2, utc=1, **{"import": 1, "from": 1}), removed=C(utcnow=1),
     ),
     "timezone-aware-datetime/fromtimestamp": dict(
+        needs='import datetime',
         detectorless=True, codemod="timezone-aware-datetime", mod=None, fn=None, pool=["ts", "h(ts)"],
         forms=[("import datetime", "datetime.datetime.utcfromtimestamp"), ("import datetime as al", "al.datetime.utcfromtimestamp"), ("from datetime import datetime", "datetime.utcfromtimestamp"), ("from datetime import datetime as G", "G.utcfromtimestamp")],
         edits=[], appended=["tz=datetime.timezone.utc", "tz=al.timezone.utc", "tz=timezone.utc"],
@@ -147,6 +156,7 @@ TABLE = {
         added=C(fromtimestamp=1, tz=1, datetime=1, al=1, timezone=2, utc=1, **{"import": 1, "from": 1}), removed=C(utcfromtimestamp=1),
     ),
     "secure-tempfile": dict(
+        needs='import tempfile',
         detectorless=True, shape="with", mod="tempfile", fn="mktemp", pool=["", "'s'", "'s', 'p'", "prefix='p'", "dir='d', suffix='s'", "'s', dir='d'"],
         edits=[], appended=[], added=C(), removed=C(),
     ),
@@ -171,7 +181,7 @@ def sel(pool, i):
 def build(name, style: int, args: int, decoy: int, layout: int):
     """style: 0 `import M`, 1 `import M as al`, 2 `from M import F`, 3 `from M import F as G` (restricted to the
     styles the codemod's rule covers); decoy: 0 none, 1 an identical call the detector did not report, 2 an
-    unrelated call with the same arguments; layout: 0 one line at module level, 1 arguments on their own lines with
+    unrelated call with the same arguments, 3 an unrelated function that locally imports the module the rewrite needs; layout: 0 one line at module level, 1 arguments on their own lines with
     a trailing comma, 2 inside a function body."""
     e = TABLE[name]
     mod, fn = e["mod"], e["fn"]
@@ -214,12 +224,20 @@ def build(name, style: int, args: int, decoy: int, layout: int):
     if layout % 3 == 2:
         lines.append(ind + "return r")
     keep = []
-    if decoy % 3 == 1 and e.get("detectorless"):
+    decoy = decoy % 4
+    if decoy == 3 and not e.get("needs"):
+        decoy = 2
+    if decoy == 1 and e.get("detectorless"):
         decoy = 2  # a detector-less codemod legitimately rewrites an identical second call
-    if decoy % 3 == 1:
+    if decoy == 1:
         keep = ["q = %s(%s)" % (callee, a)]
-    elif decoy % 3 == 2:
+    elif decoy == 2:
         keep = ["q = print(%s)" % a.replace("*a", "1")]
+    elif decoy == 3:
+        # the module the rewrite needs is imported, but only inside an unrelated function: that binding does not reach
+        # the rewritten call
+        bound = e["needs"].split()[-1].split(".")[0] if e["needs"].startswith("from ") else e["needs"].split()[1].split(".")[0]
+        keep = ["def other():", "    %s" % e["needs"], "    return %s" % bound]
     lines += keep
     return "\n".join(lines) + "\n", callee, a, keep, ("al" if (mod is not None or "forms" in e) and st == 1 else mod)
 
